@@ -11,6 +11,8 @@
 (*   equiv    a compile-time composition and the run-time composition of the same   *)
 (*            components with the same parameter values on the same system          *)
 (*   equivp   a class of runtime::preconditioner against the C++ type it names      *)
+(*   equivb   block-valued backend: the as_scalar / direct branch of the run-time   *)
+(*            coarsening wrapper against the compile-time composition               *)
 (*   enum     operator<< / operator>> of a run-time enumeration, value by value     *)
 (*   badtype  an invalid enumeration string under a "type" / "class" key            *)
 (*   unkrt    a key at some nesting level of the run-time composition               *)
@@ -87,6 +89,8 @@ Clauses(r) ==
                                <<"runtime-preconditioner=compile-time", Same(r, "", "_p")>>,
                                <<"known-not-reported", r.rep = <<>> >> >>
       [] r.k = "equivp"  -> << <<"preconditioner-class=type", Same(r, "_t", "_r")>> >>
+      [] r.k = "equivb"  -> << <<"block-runtime=compile-time", Same(r, "_t", "_r")>>,
+                               <<"known-not-reported", r.rep = <<>> >> >>
       [] r.k = "enum"    -> EnumClauses(r)
       [] r.k = "badtype" -> << <<"bad-enum-throws", r.threw>> >>
       [] r.k = "unkrt"   -> << <<"unknown-reported", ~r.threw /\ (IsUnknownLeaf(r.leaf) => r.rep = <<r.leaf>>)>>,
